@@ -3,7 +3,7 @@
 The real JobFileWriter._write_runtime_environment output for a generated
 [environment] section is sourced by a real bash (set -euo pipefail as in
 etc/job.sh), the function is called, and the *exported* environment
-(`env -0`) is compared with the configured values.
+(names from `compgen -e`, values NUL separated) is compared with the configured values.
 """
 from __future__ import annotations
 
@@ -12,6 +12,7 @@ import os
 import re
 import subprocess
 from collections import OrderedDict
+from types import SimpleNamespace
 
 from hypothesis import strategies as st
 
@@ -19,7 +20,7 @@ from vf.core import CaseResult, Ctx, Violation, hyp_run
 
 PROP_ID = 'C41'
 LEVEL = 'exploration'
-BUDGET = {'quick': 2000, 'thorough': 80000}
+BUDGET = {'quick': 1600, 'thorough': 80000}
 RULE = (
     'Hypothesis draws 1-6 variables (legal names that are not bash special '
     'variables) with values built from parts: literal text over printable '
@@ -29,7 +30,7 @@ RULE = (
     '~+, ~-) followed by nothing, /tail or whitespace+tail; references '
     '$NAME / ${NAME} to EARLIER variables. The function text written by the '
     'real _write_runtime_environment is sourced by bash -euo pipefail and '
-    '`env -0` read back. Oracle: value == configured string (literal class); '
+    'the exported variables (compgen -e) are read back. Oracle: value == configured string (literal class); '
     '== bash\'s own expansion of the tilde prefix (printed by the same bash '
     'process) + literal tail (tilde class; for "~user<space>tail" the '
     'literal is accepted as well); references replaced by the expected value '
@@ -138,6 +139,64 @@ def render(case):
     return res
 
 
+# ------------------------------------------------------------- bash driver
+# One long-lived bash per worker process evaluates each case in a fresh
+# subshell (no state can leak: variables die with the subshell); if anything
+# goes wrong with the pipe protocol the case is re-run in a one-shot bash.
+_BASH = {'proc': None}
+_ENV = {'HOME': HOME, 'PATH': '/usr/bin:/bin'}
+
+
+def _oneshot(body, scratch):
+    return subprocess.run(
+        ['/bin/bash', '--noprofile', '--norc', '-c', body],
+        env=_ENV, stdin=subprocess.DEVNULL, stdout=subprocess.PIPE,
+        stderr=subprocess.PIPE, cwd=scratch)
+
+
+def _run_bash(body, scratch):
+    try:
+        proc = _BASH['proc']
+        if proc is None or proc.poll() is not None or \
+                _BASH.get('cwd') != scratch:
+            if proc is not None and proc.poll() is None:
+                proc.kill()
+            proc = _BASH['proc'] = subprocess.Popen(
+                ['/bin/bash', '--noprofile', '--norc'], env=_ENV,
+                stdin=subprocess.PIPE, stdout=subprocess.PIPE,
+                stderr=subprocess.DEVNULL, cwd=scratch)
+            _BASH['cwd'] = scratch
+            import atexit
+            atexit.register(proc.kill)
+        errf = os.path.join(scratch, f'c41-err-{os.getpid()}.txt')
+        cmd = (f"(\n{body}) </dev/null 2>'{errf}'; "
+               "printf '\\0C41END%s\\0\\n' \"$?\"\n")
+        proc.stdin.write(cmd.encode('utf-8'))
+        proc.stdin.flush()
+        buf = b''
+        fd = proc.stdout.fileno()
+        while True:
+            end = buf.find(b'\0C41END')
+            if end >= 0 and buf.endswith(b'\0\n'):
+                break
+            chunk = os.read(fd, 65536)
+            if not chunk:
+                raise EOFError('bash died')
+            buf += chunk
+        rc = int(buf[end + 7:-2])
+        with open(errf, 'rb') as f:
+            err = f.read()
+        return SimpleNamespace(returncode=rc, stdout=buf[:end], stderr=err)
+    except Exception:
+        if _BASH['proc'] is not None:
+            try:
+                _BASH['proc'].kill()
+            except Exception:
+                pass
+            _BASH['proc'] = None
+        return _oneshot(body, scratch)
+
+
 def check_case(case, ctx: Ctx) -> CaseResult:
     from cylc.flow.job_file import JobFileWriter
     rendered = render(case)
@@ -157,18 +216,19 @@ def check_case(case, ctx: Ctx) -> CaseResult:
         f.write(text + '\n')
     users = sorted({p[1] for _, _, alts in rendered for a in alts
                     for p in a if p[0] == 't'})
-    script = (
+    body = (
         'set -euo pipefail\n'
-        'source "$1"\n'
+        f"source '{fpath}'\n"
         'cylc__job__inst__user_env\n'
         + ''.join(f"printf '%s\\0' ~{u}\n" for u in users)
         + "printf 'C41SEP\\0'\n"
-        'exec /usr/bin/env -0\n')
-    proc = subprocess.run(
-        ['/bin/bash', '--noprofile', '--norc', '-c', script, 'c41', fpath],
-        env={'HOME': HOME, 'PATH': '/usr/bin:/bin'},
-        stdin=subprocess.DEVNULL, stdout=subprocess.PIPE,
-        stderr=subprocess.PIPE, cwd=ctx.scratch)
+        # the exported environment (names from `compgen -e`), NUL separated;
+        # via a file so that no further process is forked
+        f"compgen -e > '{fpath}.names'\n"
+        'while read -r n; do if [[ -v $n ]]; then '
+        'printf \'%s=%s\\0\' "$n" "${!n}"; fi; '
+        f"done < '{fpath}.names'\n")
+    proc = _run_bash(body, ctx.scratch)
     classes = set()
     has_tilde = any(p[0] == 'tilde' for v in case['vars'] for p in v['parts'])
     has_ref = any(p[0] == 'ref' for v in case['vars'] for p in v['parts'])
